@@ -76,7 +76,8 @@ if args.unparser is not None:
     )
     cfg.unparser = args.unparser
 
-with open(args.input_filename, "r", encoding="utf8") as infile:
+# read bytes: the encoding of the script (BOM, PEP 263 cookie) is detected by the parser
+with open(args.input_filename, "rb") as infile:
     script = infile.read()
 
 converted = oneliner.convert_code_string(script, configs=cfg)
